@@ -83,41 +83,27 @@ def hexFloatOk (s : Bytes) : Bool :=
       !e.isEmpty && e.all isDig
   mantOk && expOk
 
-/-- overflow threshold of float64: values ≥ 2^1024 − 2^970 round to +Inf (ErrRange) -/
-def fltOverflow : Nat := 2 ^ 1024 - 2 ^ 970
-
-/-- strconv.ParseFloat(s, 64) returns a nil error, for lower-cased tokens that do not start with
-    `0x` followed by something (those go to `parseHexFloat`).  Decimal grammar
-    digits [. digits] | . digits, optional e[+-]digits; the whole string must be consumed. -/
+/-- strconv.ParseFloat(s, 64) returns a nil error OR a range error, for lower-cased tokens that do not start
+    with `0x` followed by something (those go to `parseHexFloat`).  Decimal grammar
+    digits [. digits] | . digits, optional e[+-]digits; the whole string must be consumed.  A well-formed numeral
+    whose value overflows float64 (1e999) is accepted with the value ±Inf (repair of finding C03-K3): only the
+    syntax decides. -/
 def goParseFloatOk (s : Bytes) : Bool :=
   let ip := s.takeWhile isDig
   let r := s.drop ip.length
-  let (fr, r, sawDot) := match r with
-    | 46 :: t => let f := t.takeWhile isDig; (f, t.drop f.length, true)
-    | _ => ([], r, false)
-  let _ := sawDot
+  let (fr, r) := match r with
+    | 46 :: t => let f := t.takeWhile isDig; (f, t.drop f.length)
+    | _ => ([], r)
   if ip.isEmpty && fr.isEmpty then false
   else
-    let (expNeg, ed, r, hasExp) := match r with
+    let (ed, r, hasExp) := match r with
       | 101 :: t =>
-        let (neg, t) := match t with | 45 :: u => (true, u) | 43 :: u => (false, u) | _ => (false, t)
+        let t := match t with | 45 :: u => u | 43 :: u => u | _ => t
         let d := t.takeWhile isDig
-        (neg, d, t.drop d.length, true)
-      | _ => (false, [], r, false)
+        (d, t.drop d.length, true)
+      | _ => ([], r, false)
     if hasExp && ed.isEmpty then false
-    else if !r.isEmpty then false
-    else
-      -- range: value = mant * 10^(exp - |fr|)
-      let mant := natOfDigits 10 (ip ++ fr)
-      if mant == 0 then true
-      else
-        let e : Int := (if expNeg then -(natOfDigits 10 (ed.take 8) : Int) else (natOfDigits 10 (ed.take 8) : Int))
-        let e := if ed.length > 8 then (if expNeg then (-100000000 : Int) else 100000000) else e
-        let k : Int := e - fr.length
-        if k > 400 then false
-        else if k ≥ 0 then decide (mant * 10 ^ k.toNat < fltOverflow)
-        else if -k > 2000 + (ip.length + fr.length : Int) then true
-        else decide (mant < fltOverflow * 10 ^ (-k).toNat)
+    else r.isEmpty
 
 /-- `parseFloat` -/
 def parseFloat (s : Bytes) : Bool :=
